@@ -74,6 +74,8 @@ static uint64_t ctx_digest(xmp_context opaque)
 	uint64_t h = FNV_INIT;
 	int i;
 
+	if (opaque == NULL)
+		return 0;
 	h = fnv1a(h, ctx, sizeof(*ctx));
 	for (i = 0; i < mod->pat; i++)
 		h = fnv1a(h, mod->xxp[i], sizeof(struct xmp_pattern) + sizeof(int) * (mod->chn - 1));
@@ -465,8 +467,12 @@ static void setup_bystander(const char *module)
 	int i;
 	bystander = xmp_create_context();
 	if (xmp_load_module(bystander, module) < 0 || xmp_start_player(bystander, 22050, 0) < 0) {
-		fprintf(stderr, "cannot set up the bystander context from %s\n", module);
-		exit(4);
+		/* a library that cannot even load the reference module: go on without the digest, the
+		 * return-code oracle will say what is wrong */
+		printf("N no-bystander %s\n", module);
+		xmp_free_context(bystander);
+		bystander = NULL;
+		return;
 	}
 	for (i = 0; i < 9; i++)
 		xmp_play_frame(bystander);
@@ -496,8 +502,9 @@ static void run_file(const char *path, uint64_t seed, int nmut, long maxsize, co
 		unsigned char *orig = read_file(path, &osize), *d;
 		char spec[256];
 		int n = nmut;
+		setpgid(0, 0);		/* own process group: the parent kills stragglers (the library may fork) */
 		signal(SIGALRM, on_alarm);
-		alarm(300);
+		alarm(240);
 		if (orig == NULL || osize <= 0)
 			_exit(0);
 		if (fixed != NULL) {
@@ -519,8 +526,23 @@ static void run_file(const char *path, uint64_t seed, int nmut, long maxsize, co
 		fflush(stdout);
 		_exit(0);
 	}
-	if (waitpid(pid, &status, 0) < 0)
-		exit(4);
+	{
+		/* watchdog: a hung child (or a process it forked) must not stall the run */
+		int waited = 0, r;
+		while ((r = waitpid(pid, &status, WNOHANG)) == 0) {
+			usleep(20000);
+			if (++waited > 50 * 300) {
+				kill(-pid, SIGKILL);
+				kill(pid, SIGKILL);
+				waitpid(pid, &status, 0);
+				status = 97 << 8;
+				break;
+			}
+		}
+		if (r < 0)
+			exit(4);
+		kill(-pid, SIGKILL);	/* anything the child left behind */
+	}
 	if (WIFSIGNALED(status))
 		printf("X signal %d\n", WTERMSIG(status));
 	else if (WIFEXITED(status) && WEXITSTATUS(status) == 97)
